@@ -243,8 +243,47 @@ def run_unit(name, repo, workdir, expanded=None, rlimit=30, bless=False, threads
         res['status'] = 'undecided'
         res['reason'] = 'vacuity guard: expected obligations not attempted: ' + ', '.join(missing[:5])
         return res
+    # vacuity pass: every function body under contract must be reachable — `assert(false)` at its start must fail
+    vac = vacuity_pass(text, fpath, workdir, flags, rlimit, threads)
+    res['vacuity'] = vac
+    if vac['unreachable']:
+        res['status'] = 'undecided'
+        res['reason'] = 'vacuity guard: `assert(false)` at the start of a function body was PROVED (contradictory precondition or unreachable body) at generated line(s) %s' % vac['unreachable'][:5]
+        return res
     res['status'] = 'ok'
     return res
+
+
+def vacuity_pass(text, fpath, workdir, flags, rlimit, threads):
+    lines = text.split('\n')
+    def unverified(i):
+        # the marker sits in a function that Verus does not verify (external_body attached by a later splice)
+        k = i
+        while k >= 0 and not re.search(r'\bfn\s+\w+', lines[k]):
+            k -= 1
+        return any('external_body' in lines[j] for j in range(max(0, k - 3), k + 1))
+    marks = [i + 1 for i, ln in enumerate(lines) if '/*VF-REACH*/' in ln and not unverified(i)]
+    if not marks:
+        return {'markers': 0, 'unreachable': [], 'wall_s': 0.0}
+    t0 = time.time()
+    vtext = text.replace('/*VF-REACH*/', 'proof { assert(false); }')
+    vpath = fpath[:-3] + '_vacuity.rs'
+    with open(vpath, 'w', encoding='utf-8') as f:
+        f.write(vtext)
+    cmd = ['verus', vpath, '--rlimit', str(rlimit), '--num-threads', str(threads), '--multiple-errors', '2'] + list(flags)
+    try:
+        p = subprocess.run(cmd, cwd=workdir, capture_output=True, text=True, timeout=1500)
+    except subprocess.TimeoutExpired:
+        return {'markers': len(marks), 'unreachable': [], 'wall_s': time.time() - t0, 'note': 'timeout (not counted)'}
+    failed_lines = set()
+    for b in re.split(r'\n(?=error)', p.stderr):
+        if b.startswith('error: assertion failed'):
+            for m in re.finditer(re.escape(os.path.basename(vpath)) + r':(\d+):\d+', b):
+                failed_lines.add(int(m.group(1)))
+    if not failed_lines and 'verification results' not in p.stdout + p.stderr:
+        return {'markers': len(marks), 'unreachable': [], 'wall_s': time.time() - t0, 'note': 'vacuity run did not verify (not counted): ' + p.stderr[-300:]}
+    unreachable = [ln for ln in marks if ln not in failed_lines]
+    return {'markers': len(marks), 'unreachable': unreachable, 'wall_s': time.time() - t0}
 
 
 def _owner_matches(err, obname):
